@@ -9,6 +9,8 @@ from ..srcmodel import walk_local, norm, dotted, guards
 from . import common, forward
 from . import c12
 
+from .c01 import emitted_trs_accepted
+
 META = {
     'explanation': (
         "Delegation chain Tract.<attr> -> TRS.<attr> -> trs dict key (same "
@@ -92,6 +94,7 @@ def check(ctx):
     ctx.attempt(_placeholders)
     ctx.attempt(_hand_down)
     ctx.attempt(forward.check_all, module_suffixes=('plssdesc.plss_parse', 'plssdesc.plssdesc', 'tract.tract', 'trs.trs'))
+    ctx.attempt(emitted_trs_accepted)
 
 
 def _placeholders(ctx):
